@@ -265,6 +265,12 @@ pub fn run(ctx: &Ctx) -> Report {
         (workers, storm.join().unwrap_or_default())
     });
     let (workers, storm) = burners;
+    // a process that gave no answer within its 120 s is a timeout (C09's subject / machine load), not a different answer
+    let unanswered = storm.iter().filter(|r| r.0.is_empty() || r.1.is_empty()).count();
+    if unanswered > 0 {
+        rep.class_n("cold-start-storm:unanswered(not compared)", unanswered as u64);
+    }
+    let storm: Vec<(String, String)> = storm.into_iter().filter(|r| !r.0.is_empty() && !r.1.is_empty()).collect();
     rep.eval(storm.len() as u64);
     if storm.len() >= 2 {
         rep.nontrivial(o::hash_str("cold-start-storm"));
@@ -273,7 +279,7 @@ pub fn run(ctx: &Ctx) -> Report {
         for r in &storm {
             *kinds.entry(r.clone()).or_insert(0) += 1;
         }
-        if kinds.len() > 1 || storm[0].1.is_empty() {
+        if kinds.len() > 1 {
             rep.violation(Violation::new(
                 "across-processes",
                 "across-processes/cold-start-differs",
@@ -373,6 +379,10 @@ pub fn run(ctx: &Ctx) -> Report {
         }
         for k in 1..tables.len() {
             for (i, (a, b)) in tables[0].iter().zip(tables[k].iter()).enumerate() {
+                if a.0.is_empty() || b.0.is_empty() || a.1.is_empty() || b.1.is_empty() {
+                    rep.class("uci-search:unanswered-within-60s(not compared)");
+                    continue;
+                }
                 if a != b {
                     rep.violation(Violation::new(
                         "across-processes",
@@ -432,7 +442,9 @@ pub fn run(ctx: &Ctx) -> Report {
             if deep.len() >= 2 {
                 rep.nontrivial(o::hash_str("deep-search"));
                 rep.class("deep-search(depth 8/9) x3 processes, one frozen 1.2 s");
-                if deep.iter().any(|x| x != &deep[0]) || deep[0].1.is_empty() {
+                if deep.iter().any(|x| x.0.is_empty() || x.1.is_empty()) {
+                    rep.class("deep-search:unanswered-within-300s(not compared)");
+                } else if deep.iter().any(|x| x != &deep[0]) {
                     rep.violation(Violation::new("across-processes", "across-processes/deep-search-differs", format!("'position fen {fen}' + a deep 'go depth' answered differently in concurrent engine processes: {deep:?}"), json!({"fen": fen, "depth": 8})));
                 }
                 rep.samples.push(json!({"deep_search": fen, "results": deep}));
@@ -442,7 +454,9 @@ pub fn run(ctx: &Ctx) -> Report {
             if opt.len() >= 2 {
                 rep.nontrivial(o::hash_str("options-set"));
                 rep.class("advertised-options-set-before-search x3");
-                if opt.iter().any(|x| x != &opt[0]) || opt[0].1.is_empty() {
+                if opt.iter().any(|x| x.0.is_empty() || x.1.is_empty()) {
+                    rep.class("options-search:unanswered-within-300s(not compared)");
+                } else if opt.iter().any(|x| x != &opt[0]) {
                     rep.violation(Violation::new("across-processes", "across-processes/options-differs", format!("'position fen {fen}' + 'go depth 6' with and without the advertised options set (Hash 1, Threads 1, Move Overhead 10): {opt:?}"), json!({"fen": fen, "depth": 6})));
                 }
             }
@@ -457,7 +471,7 @@ pub fn run(ctx: &Ctx) -> Report {
                     let wnodes = w[4].as_u64().unwrap_or(0).to_string();
                     let umove = best.split_whitespace().nth(1).unwrap_or("");
                     rep.eval(1);
-                    if !nodes.is_empty() && (wmove != umove || wnodes != *nodes) {
+                    if !nodes.is_empty() && !umove.is_empty() && (wmove != umove || wnodes != *nodes) {
                         rep.violation(Violation::new(
                             "across-processes",
                             "across-processes/fresh-vs-long-lived",
